@@ -180,6 +180,51 @@ PROPS = {
         "require_observed": ["renaming-gives-same-form", "non-renaming-gives-different-form:universe changed", "nontrivial:compression-with-gaps", "instantiate-canonicalize-roundtrip", "invert:placeholders-to-unknowns", "invert:refused-free-unknowns"],
         "assumptions": COMMON_ASSUME,
     },
+    "C17": {
+        "level": "exploration",
+        "rule": "cases = 10 sequences each: a canonical substitution (1-3 entries over ADTs, tuples, slices, refs, raw pointers, arrays with const lengths, scalars, placeholders, own variables "
+                "incl. repeated ones) merged with 1-3 further answers (70% structural variants) through hook H2 (merge_into_guidance / may_invalidate / is_trivial); an independent one-way "
+                "matcher on a mirror term type checks: every merged answer and the previous guidance are instances of the result; may_invalidate == false only for answers that are instances "
+                "of the guidance; is_trivial == identity. Plus all 4x4 pairs of solution kinds through Solution::combine (commutative; Unique only from a Unique; a definite substitution "
+                "generalises every candidate's). Every 10th case checks in situ that the aggregated guidance of a real SLG solve generalises every enumerated answer. "
+                "Non-trivial = a merge sequence fully checked / an in-situ goal with >= 2 answers; distinct = the history.",
+        "min_evals": 30000, "min_nontrivial": 8000,
+        "require_observed": ["merged-answers-are-instances", "may-invalidate=false:answer-is-instance", "may-invalidate=true", "combine:uniquexdefinite", "combine:unknownxsuggested", "in-situ:answer-is-instance-of-aggregated-guidance", "is_trivial:true"],
+        "assumptions": COMMON_ASSUME,
+    },
+    "C18": {
+        "level": "exploration",
+        "rule": "cases = 20 pairs each of a term of every TyKind (depth <= 3, wildcards = bound variables of kinds ty/lifetime/const, refs, arrays, fn pointers, dyn, aliases, ADTs and fn defs "
+                "with declared variances) and a structural variant (75%) or an unrelated term, posed as types, as trait-reference argument lists and as domain goals; oracle = real "
+                "unification (InferenceTable::relate) after replacing each side's wildcards by fresh unknowns; refuted when could_match == false for a pair that unifies. Every 10th case runs "
+                "real solves with the FaultDb filter monitor: each impl omitted by impls_for_trait must fail to unify with the query arguments. "
+                "Non-trivial = a pair that unifies (so the filter had to let it through) / a solve in which omitted impls were checked; distinct = the pair.",
+        "min_evals": 30000, "min_nontrivial": 10000,
+        "require_observed": ["types:unifies=true:could_match=true", "argument-lists:unifies=true:could_match=true", "domain-goals:unifies=true:could_match=true", "filtered-and-indeed-not-unifiable", "runtime:impls-left-out", "head:fn-pointer", "head:ref", "head:array"],
+        "assumptions": COMMON_ASSUME + ["the oracle (real unification) is chalk's own unifier, itself monitored by C14"],
+    },
+    "C25": {
+        "level": "exploration",
+        "rule": "cases = 12 terms each (types of every TyKind, goals with quantifiers/implications/negation, program clauses) generated on a mirror AST under a binder of 1-3 variables of "
+                "random kinds with 2 outer free levels and nested fn-pointer / dyn / where-clause binders; the mirror implements textbook shift and substitution; chalk's shifted_in, "
+                "shifted_in_from/shifted_out_to (1-3 levels), shifted_out, Subst::apply and Binders::substitute (identity and random parameters) must equal the converted reference result, "
+                "substitution must commute with shifting, and a no-op folder must return an equal value for Ty, Goal, ProgramClause, WhereClause, DomainGoal, InEnvironment, Canonical, "
+                "ConstrainedSubst. Non-trivial = a term on which all laws were checked; distinct = the term.",
+        "min_evals": 20000, "min_nontrivial": 15000,
+        "require_observed": ["laws-checked:ty", "laws-checked:goal", "laws-checked:clause", "head:dyn", "head:fn-pointer", "head:bound-var"],
+        "assumptions": COMMON_ASSUME,
+    },
+    "C26": {
+        "level": "exploration",
+        "rule": "cases = 25 types each of every TyKind (depth <= 4; lifetimes and consts of every kind in every position, dyn bounds of all four where-clause kinds, fn-pointer binders) "
+                "generated on a mirror AST; the stored flags minus STILL_FURTHER_SPECIALIZABLE must equal the flags computed by an independent walk of the mirror written from the flags' "
+                "doc comments. Non-trivial = a type with at least one flag; distinct = the type. The evidence lists every flag and head constructor seen.",
+        "min_evals": 40000, "min_nontrivial": 10000,
+        "require_observed": ["flag-seen:HAS_TY_INFER", "flag-seen:HAS_RE_INFER", "flag-seen:HAS_CT_INFER", "flag-seen:HAS_TY_PLACEHOLDER", "flag-seen:HAS_RE_PLACEHOLDER", "flag-seen:HAS_CT_PLACEHOLDER",
+                             "flag-seen:HAS_FREE_LOCAL_REGIONS", "flag-seen:HAS_TY_PROJECTION", "flag-seen:HAS_TY_OPAQUE", "flag-seen:HAS_ERROR", "flag-seen:HAS_RE_ERROR", "flag-seen:HAS_FREE_REGIONS",
+                             "flag-seen:HAS_RE_LATE_BOUND", "flag-seen:HAS_RE_ERASED", "head:dyn", "head:array"],
+        "assumptions": COMMON_ASSUME,
+    },
 }
 
 HOOK_COMMITS = ["d77ca2a", "4f79b4b", "3978b55", "ebc00bf"]
